@@ -14,6 +14,13 @@ HARNESS_BIN = "c20"
 NCASES = {"quick": 12000, "thorough": 120000}
 CASE_TIMEOUT = {"quick": 30, "thorough": 120}
 SHRINK = False  # case arguments are hex-coded texts, not integers
+# the 32-bit selector of the static word arrays is executed too (force_bits="32"); answers must be identical
+CONFIGS = ["default", "w32"]
+
+
+def canon_answer(a):
+    return a
+
 
 LEVEL_TEXT = ("Machine-checked Coq theorems (no size bound): the three code generators of the macros (u32 const expression, "
               "from_le_bytes of a byte array, static word arrays for 16/32/64-bit words with their LEN and the padding) build "
@@ -52,7 +59,7 @@ TRUSTED_BASE = [
     "Int/IoSpec.v (C07) as the meaning of digit strings with radix prefixes; the run-time float parser as reference for float literals",
 ]
 ASSUMPTIONS = [
-    "the harness build uses 64-bit words; the 16- and 32-bit selectors of the static arrays are checked from the emitted arrays against the model (and proved), not executed",
+    "the harness is built with 64-bit and with 32-bit words (force_bits) and both builds must answer identically; the 16-bit selector of the static arrays is checked from the emitted arrays against the model (and proved for all three sizes), not executed",
     "rustc's const evaluation of the emitted expressions agrees with run-time evaluation (observed in the crate phase for every literal of the crate)",
 ]
 
